@@ -14,6 +14,29 @@ def spellings(cls, ordered):
         yield ("positional" if cut == len(ordered) else f"first {cut} positional"), (lambda cut=cut: cls(*vals[:cut], **dict(zip(names[cut:], vals[cut:]))))
 
 
+def registry_routes(cls):
+    """-> list of (label, callable(**kwargs)) creating cls through the library's registries (every name under which cls is registered)"""
+    routes = []
+    try:
+        from kaira.channels.registry import ChannelRegistry
+        from kaira.constraints.registry import ConstraintRegistry
+        from kaira.metrics.registry import MetricRegistry
+        from kaira.models.registry import ModelRegistry
+        from kaira.modulations.registry import ModulationRegistry
+    except Exception:  # noqa: BLE001
+        return routes
+    for reg, attr, mk in ((ChannelRegistry, "_channels", lambda nm: (lambda **kw: ChannelRegistry.create(nm, **kw))),
+                          (ConstraintRegistry, "_constraints", lambda nm: (lambda **kw: ConstraintRegistry.create(nm, **kw))),
+                          (MetricRegistry, "_metrics", lambda nm: (lambda **kw: MetricRegistry.create(nm, **kw))),
+                          (ModelRegistry, "_models", lambda nm: (lambda **kw: ModelRegistry.create(nm, **kw))),
+                          (ModulationRegistry, "_modulators", lambda nm: (lambda **kw: ModulationRegistry.create(nm, mode="modulator", **kw))),
+                          (ModulationRegistry, "_demodulators", lambda nm: (lambda **kw: ModulationRegistry.create(nm, mode="demodulator", **kw)))):
+        for nm, c in sorted(getattr(reg, attr, {}).items()):
+            if c is cls:
+                routes.append((f"{reg.__name__}.create('{nm}')", mk(nm)))
+    return routes[:3]
+
+
 def _diff(a, b, path="", out=None):
     out = [] if out is None else out
     if len(out) >= 3:
@@ -37,6 +60,8 @@ def table(pid):
     T = []
     if pid == "C07":
         T += [("awgn-power", K.AWGNChannel, [("avg_noise_power", 0.3)]), ("awgn-snr", K.AWGNChannel, [("avg_noise_power", None), ("snr_db", 7.0)]),
+              ("awgn-snr0", K.AWGNChannel, [("avg_noise_power", None), ("snr_db", 0.0)]), ("laplacian-snr0", K.LaplacianChannel, [("scale", None), ("avg_noise_power", None), ("snr_db", 0)]),
+              ("nonlinear-snr0", K.NonlinearChannel, [("nonlinear_fn", torch.tanh), ("add_noise", True), ("avg_noise_power", None), ("snr_db", 0.0)]),
               ("laplacian-scale", K.LaplacianChannel, [("scale", 0.4)]), ("laplacian-power", K.LaplacianChannel, [("scale", None), ("avg_noise_power", 0.3)]),
               ("laplacian-snr", K.LaplacianChannel, [("scale", None), ("avg_noise_power", None), ("snr_db", 7.0)]),
               ("nonlinear", K.NonlinearChannel, [("nonlinear_fn", torch.tanh), ("add_noise", True), ("avg_noise_power", 0.3), ("snr_db", None), ("complex_mode", "polar")]),
@@ -45,13 +70,18 @@ def table(pid):
         T += [("flat-rician", K.FlatFadingChannel, [("fading_type", "rician"), ("coherence_time", 3), ("k_factor", 2.0), ("avg_noise_power", 0.2)]),
               ("flat-rayleigh-snr", K.FlatFadingChannel, [("fading_type", "rayleigh"), ("coherence_time", 5), ("k_factor", None), ("avg_noise_power", None), ("snr_db", 9.0)]),
               ("flat-lognormal", K.FlatFadingChannel, [("fading_type", "lognormal"), ("coherence_time", 2), ("k_factor", None), ("avg_noise_power", 0.1), ("snr_db", None), ("shadow_sigma_db", 6.0)]),
+              ("rician-k0", K.RicianFadingChannel, [("k_factor", 0.0), ("coherence_time", 1), ("avg_noise_power", None), ("snr_db", 0.0)]),
+              ("rician-k0-int", K.RicianFadingChannel, [("k_factor", 0), ("coherence_time", 1), ("avg_noise_power", 0.5)]),
+              ("flat-rician-k0", K.FlatFadingChannel, [("fading_type", "rician"), ("coherence_time", 1), ("k_factor", 0.0), ("avg_noise_power", None), ("snr_db", 0.0)]),
+              ("lognormal-sigma0", K.LogNormalFadingChannel, [("shadow_sigma_db", 0.0), ("coherence_time", 1), ("avg_noise_power", None), ("snr_db", 0)]),
               ("rayleigh", K.RayleighFadingChannel, [("coherence_time", 4), ("avg_noise_power", 0.2)]), ("rayleigh-snr", K.RayleighFadingChannel, [("coherence_time", 4), ("avg_noise_power", None), ("snr_db", 3.0)]),
               ("rician", K.RicianFadingChannel, [("k_factor", 5.0), ("coherence_time", 3), ("avg_noise_power", 0.2)]), ("rician-snr", K.RicianFadingChannel, [("k_factor", 0.5), ("coherence_time", 2), ("avg_noise_power", None), ("snr_db", 3.0)]),
               ("lognormal", K.LogNormalFadingChannel, [("shadow_sigma_db", 8.0), ("coherence_time", 7), ("avg_noise_power", 0.2)]),
               ("lognormal-snr", K.LogNormalFadingChannel, [("shadow_sigma_db", 8.0), ("coherence_time", 7), ("avg_noise_power", None), ("snr_db", 3.0)])]
     if pid == "C12":
         T += [("bsc", K.BinarySymmetricChannel, [("crossover_prob", 0.2)]), ("z", K.BinaryZChannel, [("error_prob", 0.2)]),
-              ("bec", K.BinaryErasureChannel, [("erasure_prob", 0.2), ("erasure_symbol", 2)])]
+              ("bec", K.BinaryErasureChannel, [("erasure_prob", 0.2), ("erasure_symbol", 2)]), ("bec-0", K.BinaryErasureChannel, [("erasure_prob", 0.0), ("erasure_symbol", 0)]),
+              ("bsc-0", K.BinarySymmetricChannel, [("crossover_prob", 0.0)]), ("bsc-1", K.BinarySymmetricChannel, [("crossover_prob", 1)]), ("z-0", K.BinaryZChannel, [("error_prob", 0)])]
     if pid == "C08":
         T += [("total", KC.TotalPowerConstraint, [("total_power", 2.5)]), ("average", KC.AveragePowerConstraint, [("average_power", 0.7)]),
               ("papr", KC.PAPRConstraint, [("max_papr", 4.5)]), ("peak", KC.PeakAmplitudeConstraint, [("max_amplitude", 1.5)]),
@@ -75,7 +105,8 @@ def table(pid):
         from kaira.metrics.signal.ber import BitErrorRate
         from kaira.metrics.signal.bler import BlockErrorRate
         T += [("ber", BitErrorRate, [("threshold", 0.25)]), ("bler", BlockErrorRate, [("block_size", 4), ("threshold", 0.1), ("reduction", "sum")]),
-              ("bler-none", BlockErrorRate, [("block_size", None), ("threshold", 0.0), ("reduction", "none")])]
+              ("bler-none", BlockErrorRate, [("block_size", None), ("threshold", 0.0), ("reduction", "none")]),
+              ("ber-0", BitErrorRate, [("threshold", 0.0)])]
     if pid in ("C10", "C02", "C11", "C15"):
         from kaira.models.fec import decoders as D
         from kaira.models.fec import encoders as E
@@ -85,6 +116,7 @@ def table(pid):
         if pid in ("C10", "C15"):
             T += [("bp", D.BeliefPropagationDecoder, [("encoder", ldpc), ("bp_iters", 7), ("arctanh", False)]),
                   ("minsum", D.MinSumLDPCDecoder, [("encoder", ldpc), ("bp_iters", 6), ("scaling_factor", 0.8), ("offset", 0.1), ("normalized", True)]),
+                  ("minsum-0", D.MinSumLDPCDecoder, [("encoder", ldpc), ("bp_iters", 1), ("scaling_factor", 1.0), ("offset", 0.0), ("normalized", False)]),
                   ("rm-soft", D.ReedMullerDecoder, [("encoder", rmc), ("input_type", "soft")])]
         if pid == "C02":
             T += [("ml-lazy", D.BruteForceMLDecoder, [("encoder", ham), ("precompute_codebook", False)]), ("rm-hard", D.ReedMullerDecoder, [("encoder", rmc), ("input_type", "hard")])]
@@ -136,7 +168,8 @@ def run(pid, res, component="spelling"):
             res.rejected += 1
             continue
         ref = None
-        for name, mk in spellings(cls, ordered):
+        routes = [(f"{rn} with keywords", (lambda rf=rf: rf(**dict(ordered)))) for rn, rf in registry_routes(cls)]
+        for name, mk in list(spellings(cls, ordered)) + routes:
             try:
                 obj = mk()
             except Exception as e:  # noqa: BLE001
